@@ -3,10 +3,18 @@
     Proved here (partial): over the handlers model, the edits a rename produces for the uses
     of a declaration are the identifier spans of exactly the uses bound to it (C17) and are
     pairwise disjoint; a consistent injective renaming leaves the binding relation unchanged
-    (C05), so the edited program binds every use as before. That the edited sources are
-    accepted and compile to the same document, and that the server survives every offered
-    rename (F4, fixed), is carried by monitor O18 on the real binary. *)
+    (C05), so the edited program binds every use as before. On the evaluator model (tied to
+    eval.rs on every run): renaming the bound identifiers of a whole program injectively
+    leaves the evaluation unchanged ([C18_binder_rename_keeps_document], parameters and rec
+    binders); renaming @references injectively gives the same result with the keys of the
+    named components renamed and nothing else changed ([C18_reference_rename_keeps_document]:
+    the same document with those components' names changed). Declarations are referred to by
+    position in resolved trees, so renaming a declaration or an import qualifier does not
+    change the tree the evaluator sees. That the edited sources are accepted by the front end,
+    and that the server survives every offered rename (F4, fixed), is carried by monitor O18
+    on the real binary. *)
 From Oal Require Import Handlers HandlersProofs Resolve RewriteProofs.
+From Oal Require Eval EvalProofs KeyMap.
 
 Theorem C18_rename_use_edits_disjoint : forall us d, ordered us ->
   forall u v, In u (references_of us d) -> In v (references_of us d) -> u <> v ->
@@ -23,3 +31,24 @@ Theorem C18_renaming_keeps_binding_partial : forall f, (forall a b, f a = f b ->
   forall t en, lex (ren_env f en) (ren f t) = lex en t.
 Proof. exact alpha_resolution. Qed.
 Print Assumptions C18_renaming_keeps_binding_partial.
+
+(** evaluation: renaming binders, renaming @references *)
+Theorem C18_binder_rename_keeps_document : forall rho : N -> N, (forall x y, rho x = rho y -> x = y) ->
+  forall P n rs,
+  Eval.eval_program false (EvalProofs.ren_prog rho P) n (map (EvalProofs.ren rho) rs) = Eval.eval_program false P n rs.
+Proof. exact EvalProofs.eval_program_rename. Qed.
+Print Assumptions C18_binder_rename_keeps_document.
+
+Theorem C18_reference_rename_keeps_document : forall g : Eval.str -> Eval.str, (forall x y, g x = g y -> x = y) ->
+  forall lx P n rs,
+  Eval.eval_program lx (KeyMap.rename_refs g P) n rs = KeyMap.rmap (KeyMap.km_result g KeyMap.idx) (Eval.eval_program lx P n rs).
+Proof. exact KeyMap.rename_reference_keeps_document. Qed.
+Print Assumptions C18_reference_rename_keeps_document.
+
+Example C18_reference_rename_nonvacuous :
+  KeyMap.rename_refs KeyMap.swap56 KeyMap.ex_ref_P <> KeyMap.ex_ref_P /\
+  exists rels sc sc',
+    Eval.eval_program false KeyMap.ex_ref_P 50 KeyMap.ex_ref_rs = Eval.Ok (rels, [(Eval.KNamed 5%N, sc)]) /\
+    Eval.eval_program false (KeyMap.rename_refs KeyMap.swap56 KeyMap.ex_ref_P) 50 KeyMap.ex_ref_rs =
+    Eval.Ok (map (KeyMap.km_relation KeyMap.swap56 KeyMap.idx) rels, [(Eval.KNamed 6%N, sc')]).
+Proof. exact KeyMap.ex_rename_reference. Qed.
